@@ -137,8 +137,12 @@ def compile_stress(jp, rng, n_threads, seconds, n_queries=320):
     import time  # noqa: PLC0415
 
     env = jp.JSONPathEnvironment()
-    doc = [{"a": k % 7, "b": [k % 3, k % 5]} for k in range(12)]
+    doc = [{"a": k % 7, "b": [k % 3, k % 5], "s": ["abc", "aab", "xb", "ccx", "y", "abab", "aa", "b"][k % 8]} for k in range(12)]
     queries = [f"$[?@.a == {k % 7} && @.b[{k % 2}] <= {k // 7}]" for k in range(n_queries)]
+    # regular expressions too: several different patterns in flight at the same time
+    pats = ["a.*", "[a-c]+x", ".*b", "ab?c", "x|y", "[^a]b", "(ab)+", "a{2}"]
+    queries += [f"$[?match(@.s, '{p}') || search(@.s, '{pats[(i + 3) % len(pats)]}')]" for i, p in enumerate(pats)] * 4
+    n_queries = len(queries)
     edoc = core.enc_value(doc)
     errors = []
     samples = [[] for _ in range(n_threads)]
@@ -159,7 +163,7 @@ def compile_stress(jp, rng, n_threads, seconds, n_queries=320):
                     nodes = env.compile(q).find(doc)
                 else:
                     nodes = list(env.finditer(q, doc))
-                if n % 50 == 0:
+                if n % 50 == 0 or "match" in q:
                     samples[t].append((q, [core.enc_loc(x.location) for x in nodes]))
             except BaseException as err:  # noqa: BLE001
                 errors.append({"thread": t, "query": q, "error": f"{type(err).__name__}: {err}"[:200]})
@@ -178,7 +182,8 @@ def compile_stress(jp, rng, n_threads, seconds, n_queries=320):
         sys.setswitchinterval(old)
     recs = []
     for t in range(n_threads):
-        for q, locs in samples[t][:40]:
+        picked = [x for x in samples[t] if "match" in x[0]][:150] + samples[t][:40]
+        for q, locs in picked:
             recs.append({"op": "find", "q": core.enc_text(q), "doc": edoc, "out": "ok", "stage": "find", "jp": True, "cls": "",
                          "locs": locs, "threads": n_threads})
     return recs, errors
